@@ -264,6 +264,11 @@ pub fn build(spec: &BlindSpec) -> Flow {
     Flow { pset: ps, utxos, owners, secrets, receivers, originals }
 }
 
+/// "fully blinded", from the definition (Elements' IsFullyBlinded): a blinding key and all five pieces of blinding data
+fn fully_blinded_ref(o: &Output) -> bool {
+    o.blinding_key.is_some() && o.amount_comm.is_some() && o.asset_comm.is_some() && o.value_rangeproof.is_some() && o.asset_surjection_proof.is_some() && o.ecdh_pubkey.is_some()
+}
+
 pub fn execute(case: &BlindCase, ctx: &mut Ctx) {
     let secp = secp();
     ctx.sig("blind");
@@ -339,7 +344,7 @@ pub fn execute(case: &BlindCase, ctx: &mut Ctx) {
                 if owner_of_output(&before, oi) != Some(*party) || f.receivers[oi].is_none() {
                     ctx.check(after.outputs()[oi] == before.outputs()[oi], "C09.step.scalar", "foreign-output", || format!("party {} changed output {} which it does not blind", party, oi));
                 } else {
-                    ctx.check(after.outputs()[oi].is_fully_blinded(), "C09.step.scalar", "own-not-blinded", || format!("party {} left its output {} not fully blinded", party, oi));
+                    ctx.check(fully_blinded_ref(&after.outputs()[oi]), "C09.step.scalar", "own-not-blinded", || format!("party {} left its output {} not fully blinded", party, oi));
                 }
             }
             if !before.global.scalars.is_empty() {
@@ -359,7 +364,14 @@ pub fn execute(case: &BlindCase, ctx: &mut Ctx) {
     }
     // ---- postconditions
     for oi in &marked {
-        ctx.check(ps.outputs()[*oi].is_fully_blinded(), "C09.final.blinded", "not-blinded", || format!("marked output {} is not fully blinded after the last blinder", oi));
+        ctx.check(fully_blinded_ref(&ps.outputs()[*oi]), "C09.final.blinded", "not-blinded", || format!("marked output {} is not fully blinded after the last blinder", oi));
+    }
+    // the library's own predicates must say what the definition says, for every output of the PSET before and after
+    for (which, pset) in [("creator", &f.pset), ("final", &ps)] {
+        for (oi, o) in pset.outputs().iter().enumerate() {
+            let partially = o.blinding_key.is_some() && (o.amount_comm.is_some() || o.asset_comm.is_some() || o.value_rangeproof.is_some() || o.asset_surjection_proof.is_some() || o.ecdh_pubkey.is_some());
+            ctx.check(o.is_fully_blinded() == fully_blinded_ref(o) && o.is_partially_blinded() == partially && o.is_marked_for_blinding() == o.blinding_key.is_some(), "C09.final.blinded", "predicate", || format!("{} PSET, output {}: is_marked_for_blinding / is_partially_blinded / is_fully_blinded = {} / {} / {} disagree with the fields", which, oi, o.is_marked_for_blinding(), o.is_partially_blinded(), o.is_fully_blinded()));
+        }
     }
     ctx.check(ps.global.scalars.is_empty(), "C09.final.scalars_empty", "left", || format!("{} scalars left after the last blinder", ps.global.scalars.len()));
     let tx: Transaction = match ctx.call("Pset::extract_tx", 0, || ps.extract_tx()) {
